@@ -90,8 +90,9 @@ def desc(kind, shape=(), entries="na", geom="na", ints=False):
     return {"kind": kind, "shape": list(shape), "entries": entries, "geom": geom, "ints": ints}
 
 
-def describe(v):
-    """Concrete Python value -> descriptor of Inputs.tla."""
+def describe(v, attr=None):
+    """Concrete Python value -> descriptor of Inputs.tla (attr: index arrays of `faces` get the class "oob" when an index
+    does not address one of the 4 vertices of the base mesh)."""
     R = ctx()["R"]
     if v is None:
         return desc("none")
@@ -122,6 +123,8 @@ def describe(v):
         if not all(isinstance(x, numbers.Real) for x in leaves):
             return desc("array", shape, "obj")
         ints = all(float(x) == round(float(x)) for x in leaves if x == x and abs(x) != float("inf"))
+        if attr == "faces" and ints and len(shape) == 2 and shape[1] == 3 and min(leaves) >= 0 and max(leaves) >= 4:
+            return desc("array", shape, "oob", "na", True)
         if shape in GEOM_SHAPES:
             return desc("array", shape, "num", geom_label(shape, leaves), ints)
         return desc("array", shape, _sign_class(leaves), "na", ints)
@@ -267,7 +270,7 @@ def concretize(cls, attr, d, k, r):
     if kind == "complex":
         return complex(r.randint(1, 3), r.randint(1, 3)), "complex"
     if kind == "str":
-        return (ent if ent in ("right", "left") else r.choice(["up", "Right", " left", "", "x"])), "str"
+        return (ent if ent in ("right", "left") else r.choice(["up", "Right", " left", "", "x", "1", "1.5", " 2 ", "1e-3", "inf", "nan"])), "str"
     if kind == "rotation":
         if shape == ():
             return R.from_rotvec([r.uniform(-1, 1) for _ in range(3)]), "Rotation"
@@ -300,9 +303,12 @@ def concretize(cls, attr, d, k, r):
     else:
         form = FORMS_NUM[k % len(FORMS_NUM)] if shape else ("ndarray_f" if k % 2 == 0 else "ndarray_i")
         ints = form in ("ndarray_i", "tuple")
-    faces = attr == "faces" and ints and len(shape) == 2 and shape[1] == 3 and ent in ("pos", "zero", "num")
+    faces = attr == "faces" and ints and len(shape) == 2 and shape[1] == 3 and ent in ("pos", "zero", "num", "oob")
     if faces:                      # valid indices into the four base vertices
-        if ent == "pos":
+        if ent == "oob":           # ... except one index that equals (or exceeds) the number of vertices
+            rows = [list(TETRA_F[i % 4]) for i in range(shape[0])]
+            rows[r.randrange(shape[0])][r.randrange(3)] = 4 if k % 2 == 0 else 4 + r.randrange(3)
+        elif ent == "pos":
             rows = [r.sample([1, 2, 3], 3) for _ in range(shape[0])]
         else:
             rows = [list(TETRA_F[i % 4]) for i in range(shape[0])]
@@ -365,6 +371,11 @@ def ctor_kwargs(cls, attr, value):
     if cls == "TriangularMesh" and attr == "faces":
         # documented: with reorient_faces the constructor flips inward facing triangles, i.e. rewrites `faces`
         kw["reorient_faces"] = "skip"
+        try:    # an index equal to the number of vertices is tried with ALL body checks skipped (nothing but the index check can reject it)
+            if int(np.max(np.asarray(value, dtype=float))) == 4:
+                kw.update(MESH_SKIP)
+        except (TypeError, ValueError):
+            pass
     if cls == "TriangularMesh" and attr == "vertices":
         # companion faces with indices inside the given vertex list whenever it has a first extent
         sh, _ = _shape_leaves(value) if isinstance(value, (list, tuple, np.ndarray)) else ((), [])
@@ -604,7 +615,7 @@ def mutants(value, r, every_axis):
 def relevant(attr, d):
     """Mirror of MC_Inputs!Relevant (cross-checked through the number of triples)."""
     forced = d["kind"] == "array" and d["entries"] == "zero" and int(np.prod(d["shape"])) == 1
-    return (d["geom"] in ("na", "ok") or attr in ("dimension", "vertices")) and (attr == "faces" or d["ints"] == forced)
+    return (d["geom"] in ("na", "ok") or attr in ("dimension", "vertices")) and (attr == "faces" or d["ints"] == forced) and (d["entries"] != "oob" or attr == "faces")
 
 
 def dkey(d):
@@ -640,7 +651,7 @@ def run_pair(args):
                 r = rng(f"c17:{cls}:{attr}:{dkey(d)}:{k}")
                 for _ in range(50):     # e.g. a float instance that happens to be integer-valued is drawn again
                     value, form = concretize(cls, attr, d, k, r)
-                    got = describe(value)
+                    got = describe(value, attr)
                     dd = dict(d, ints=got["ints"]) if (attr != "faces" and d["kind"] == "array") else d
                     if got == dd:       # integer and float instances alternate outside index arrays (MC_Inputs!Relevant)
                         break
@@ -656,7 +667,7 @@ def run_pair(args):
         r.shuffle(seeds)
         for value in seeds:
             for name, mv, form in mutants(value, r, every_axis):
-                d = describe(mv)
+                d = describe(mv, attr)
                 if d["kind"] == "array" and len(d["shape"]) > 6:
                     continue
                 kk = dkey(d)
